@@ -408,6 +408,30 @@ def run(check, an: Analysis):
     # results pass through the queue in the order they were put
     from . import c10, c04
     c10.check_buffer_fifo(check, an, 'first')
+    # ... and are available from the very turn in which the activity ended: put() enqueues
+    # the item and wakes the reader before it suspends for the first time (a result
+    # published a turn later loses against a failure of the same instant)
+    put = an.callee(c10.QUEUE, 'put')
+    n_put_paths, late = 0, None
+    for path in an.paths(put):
+        appends = [i for i, e in enumerate(path.events) if e.kind == 'call' and isinstance(
+            e.node, ast.Call) and isinstance(e.node.func, ast.Attribute)
+            and e.node.func.attr in ('append', 'appendleft')
+            and rules.receiver_at(path, e) == 'self._buffer']
+        if not appends:
+            continue
+        n_put_paths += 1
+        wakes = [i for i, e in enumerate(path.events) if is_call_to(e, '__awake_next__')
+                 or is_call_to(e, '__awake_all__')]
+        first_susp = min([i for i, e in enumerate(path.events) if is_suspension(e)]
+                         or [len(path.events)])
+        if not (appends[0] < first_susp and wakes and wakes[0] < first_susp):
+            late = late or (path, appends[0])
+    check.instance('first', 'Queue.put:publishes-before-it-suspends',
+                   late is None and n_put_paths > 0, where_fn(put.fn),
+                   'the item is enqueued and the reader woken before the first suspension '
+                   'of put (%d paths)' % n_put_paths,
+                   path=rules.path_lines(*late) if late else None, analysed=n_put_paths)
     # whatever ends the caller inside collect()/first() -- a failure, a cancellation, a
     # forced close -- the scope closes the remaining activities on its way out
     check.rule('abort', 'every exit of the scope of collect()/first() closes the rest')
@@ -427,8 +451,12 @@ def run(check, an: Analysis):
     # a cancellation of the caller that loses the race against completion is disarmed
     from . import c03
     from ..paths import CANCEL_TASK
-    c03._check_signal_lifecycles(check, an, _scope.wrapper_callee(an), rule='abort',
-                                 only=lambda fn, cls: cls == CANCEL_TASK)
+    # ... and an aborted activity leaves no timed wake-up behind (suspend/postpone
+    # withdraw theirs on every exit, a forced close included)
+    c03._check_signal_lifecycles(
+        check, an, _scope.wrapper_callee(an), rule='abort',
+        only=lambda fn, cls: cls == CANCEL_TASK or (
+            fn.cls is None and fn.module.name == 'usim._primitives.notification'))
     # aborting the rest: closing children iterates copies (a closed child removes itself)
     for name in ('_close_children', '_close_volatile'):
         fn = an.method(SCOPE, name)
